@@ -157,6 +157,16 @@ fn cost(c: &DynCost, n: usize) -> u64 {
 
 /// C07: naive evaluation of the six ROS 2 analyses.  None = Err.
 pub fn ref_ros(c: &RosCase) -> Option<u64> {
+    if let RosCase::ChainSummed { supply, src, costs, others, limit } = c {
+        // the defining inequalities do not depend on how the caller groups the chain's demand
+        return ref_ros(&RosCase::Chain {
+            supply: supply.clone(),
+            src: src.clone(),
+            costs: costs.iter().map(|c| CostSpec::Scalar(*c)).collect(),
+            others: others.clone(),
+            limit: *limit,
+        });
+    }
     match c {
         RosCase::EventSource {
             supply,
@@ -239,6 +249,7 @@ pub fn ref_ros(c: &RosCase) -> Option<u64> {
                 },
             )
         }
+        RosCase::ChainSummed { .. } => unreachable!(),
         RosCase::Sub {
             bw,
             supply,
